@@ -175,7 +175,7 @@ func checkC34(c *vk.Ctx) {
 }
 
 func checkC38(c *vk.Ctx) {
-	c.Rule = "random histories with takeovers, session expiries (ticks), unsubscribes of filters the client never subscribed to, shared subscriptions, clean and unclean disconnects with messages in flight, in-flight expiry and retained publishes/deletions: after every step (quiescent) the reported clients connected / subscriptions / retained / in-flight counters are compared with numbers obtained by walking the real structures (verif probe) and with the harness's own count of open established connections; none may be negative. nontrivial = histories with >=1 comparison point"
+	c.Rule = "random histories with takeovers, session expiries (ticks), unsubscribes of filters the client never subscribed to, shared subscriptions, clean and unclean disconnects with messages in flight, in-flight expiry and retained publishes/deletions: after every step (quiescent) the reported clients connected / subscriptions / retained / in-flight counters are compared with numbers obtained by walking the real structures (verif probe) and with the harness's own count of open established connections; none may be negative; a schedule probe holds a connection handler inside its session clean-up (at the first in-flight record it drops) while housekeeping expires the remaining records of that client, then reconciles the in-flight counter. nontrivial = histories with >=1 comparison point"
 	p := sessionProfile()
 	p.Name = "stats"
 	p.TakeoverSafe = true
@@ -190,6 +190,54 @@ func checkC38(c *vk.Ctx) {
 	h.run(c)
 	c.MinEvents["stats_points"] = 3000
 	c38FailedConnects(c)
+	c38OverlappingRemovals(c)
+}
+
+// c38OverlappingRemovals: in-flight records of one client removed by two actors at once. The handler of a connection
+// whose session ends with it is held inside its clean-up (at the OnQosDropped hook of the first record it drops) while
+// housekeeping expires the client's remaining records; then the handler finishes. Each record must be counted out once.
+func c38OverlappingRemovals(c *vk.Ctx) {
+	for _, ver := range []byte{4, 5} {
+		for _, n := range []int{2, 4, 7} {
+			b := eng.NewBroker(eng.Options{})
+			ctl := b.EnableControl()
+			sub, _ := dConnect(b, ver, "ovl", true, nil, nil) // clean session / expiry 0: ends with the connection
+			sub.send(subscribePkt(1, "ovl/t", 1))
+			pub, _ := dConnect(b, 4, "ovlpub", true, nil, nil)
+			for i := 0; i < n; i++ {
+				pub.send(publishPkt("ovl/t", 1, uint16(40+i), fmt.Sprintf("v%d", i), false))
+			}
+			sub.wait() // received, never acknowledged
+			if got := b.S.VerifActualCounts().Inflight; got != n {
+				c.Inconclusive(fmt.Sprintf("C38 overlapping removals: %d in-flight records before the teardown, expected %d", got, n))
+				b.DisableControl()
+				b.Shutdown()
+				continue
+			}
+			ctl.ParkAt("hook.OnQosDropped", "ovl")
+			sub.MC.CloseByClient()
+			if !ctl.WaitParked("hook.OnQosDropped", "ovl", 1, 5*time.Second) {
+				c.Inconclusive("C38 overlapping removals: the clean-up did not reach its first dropped record")
+				b.DisableControl()
+				b.Shutdown()
+				continue
+			}
+			b.S.VerifClearExpiredInflights(time.Now().Unix() + 1000000) // far beyond the server's maximum message expiry
+			ctl.Release("hook.OnQosDropped", "ovl")
+			b.Quiesce(10 * time.Second)
+			rep, act := b.S.Info.Clone().Inflight, int64(b.S.VerifActualCounts().Inflight)
+			c.Count("overlapping_removal_cases", 1)
+			if rep != act || rep < 0 {
+				c.Violate("C38/counter-mismatch", map[string]string{"counter": "inflight", "after_op": "removals-overlapping-a-session-teardown", "negative": fmt.Sprint(rep < 0), "drift": fmt.Sprint(rep > act)},
+					fmt.Sprintf("MQTT %d, %d unacknowledged messages: housekeeping expired the client's in-flight records while its connection handler was inside its own clean-up; afterwards $SYS inflight reports %d, actual %d", ver, n, rep, act),
+					map[string]any{"version": ver, "inflight": n, "points": ctl.Trace()})
+			}
+			c.Eval(vk.Hash("c38ovl", ver, n), true)
+			b.DisableControl()
+			b.Shutdown()
+		}
+	}
+	c.MinEvents["overlapping_removal_cases"] = 4
 }
 
 // c38FailedConnects: connections that are counted but never get their CONNACK (the write fails, the CONNACK exceeds the
